@@ -365,6 +365,7 @@ def zoo():
         ('honeycomb', lambda: crystal.Crystal(np.array([[1., -.5], [0., np.sqrt(.75)]]),
                                               [np.array([1. / 3, 2. / 3]), np.array([2. / 3, 1. / 3])])),
         ('rect-2sp', lambda: crystal.Crystal(np.array([[1., 0.], [0., 1.5]]), [[np.zeros(2)], [np.array([.5, .5])]])),
+        ('polar-chain-2D', lambda: crystal.Crystal(np.array([[1., 0.], [0., 3.]]), [[np.zeros(2)], [np.array([.3, .5])]])),
         ('tetragonal-2sp', lambda: crystal.Crystal(np.diag([1., 1., 1.5]), [[np.zeros(3)], [np.array([.5, .5, .5]), np.array([0., .5, .25])]])),
     ]
 
